@@ -165,6 +165,12 @@ def run_case(case, ctx):
         state['outputs_before_stop'] = [r.output for r in repeats]
         state['alive_before_stop'] = sim.alive()
         hist.log('stop_called')
+        if case.get('stopmode') == 'double':
+            # the stop is requested twice (e.g. a 'shutdown' control event and then the
+            # application's own shutdown() while the clean-up is already in progress)
+            sim.circuit.abort(asyncio.CancelledError('vf: first stop request'))
+            await asyncio.sleep(0)
+            await asyncio.sleep(0)
 
     def setup(loop):
         hist.loop = loop
@@ -391,6 +397,8 @@ def gen(ctx):
                             'iv': idx % len(IV_NOTATIONS)}
                     if structure in ('chain', 'implicit_chain'):
                         case['count2'] = COUNTS[(idx // 7) % len(COUNTS)]
+                    if idx % 5 == 0:
+                        case['stopmode'] = 'double'
                     yield case, True
     # random part
     rng = ctx.rng('random')
@@ -409,6 +417,8 @@ def gen(ctx):
             case['count2'] = rng.choice(COUNTS)
         if rng.random() < 0.25:
             case['latency'] = rng.choice([1e-4, 2e-3])
+        if rng.random() < 0.25:
+            case['stopmode'] = 'double'
         yield case, False
 
 
